@@ -18,7 +18,7 @@ RULE = (
     "invocation log for the first three (and for -32602); (signatures) functions synthesised from generated signatures (required, defaulted, "
     "*args, keyword-only, **kwargs) called with generated positional lists / keyword maps, expected binding computed with inspect.signature; "
     "(instances) generated object trees with public, _private and __dunder__ members at depth <= 3 and every kind of dotted name; "
-    "(exceptions) 30 exception classes (builtins and user-defined, incl. TypeError subclasses) with generated single-line messages raised by "
+    "(exceptions) 32 exception classes (builtins and user-defined, incl. TypeError subclasses) with generated single-line messages raised by "
     "functions and instance methods; (translator) payloads the class translator rejects. Every case is also driven through ServerProxy "
     "(in-process transport) and must raise ProtocolError carrying the code. Non-trivial = every case except a plain successful call; "
     "distinct by hash of the case."
@@ -400,11 +400,27 @@ class DeepUserError(UserError):
     pass
 
 
+class CodedError(Exception):
+    """Application exception carrying its own numeric code"""
+    code = 404
+
+
+class StatusError(Exception):
+    def __init__(self, *args):
+        Exception.__init__(self, *args)
+        self.code = 7
+        self.status = 503
+        self.errno = 13
+        self.faultCode = -32000
+        self.message = "another text"
+
+
 EXC_CLASSES = [
     ValueError, KeyError, RuntimeError, ZeroDivisionError, OSError, AttributeError, LookupError, AssertionError,
     StopIteration, NotImplementedError, IndexError, Exception, ArithmeticError, NameError, ImportError,
     PermissionError, TimeoutError, BufferError, EOFError, OverflowError, UnicodeError, ConnectionError,
     FileNotFoundError, ReferenceError, UserError, UserValueError, DeepUserError, TypeError, UserTypeError, FloatingPointError,
+    CodedError, StatusError,
 ]
 _LINEBREAKS = "\n\r\x0b\x0c\x1c\x1d\x1e\x85  "
 messages = st.one_of(
@@ -546,7 +562,7 @@ SUBS = [
         what="call / re-register instance / remove attribute sequences on one dispatcher: unknown means unknown in the current registry"),
     Sub("exceptions", oracle_exception, strategy=lambda tier: exception_cases(),
         budget={"quick": 3000, "thorough": 60000}, shards={"quick": 4, "thorough": 8},
-        what="30 exception classes x generated messages -> -32603 naming type and text"),
+        what="32 exception classes x generated messages -> -32603 naming type and text"),
     Sub("translator", oracle_translator, strategy=lambda tier: translator_cases(),
         budget={"quick": 1000, "thorough": 20000}, shards={"quick": 2, "thorough": 4},
         what="payloads the class translator rejects -> single -32700, nothing invoked"),
@@ -562,7 +578,7 @@ SUBS.append(
 
 CLAIM = {
     "technique": "property-based testing of error classification: reference model for codes, generated signatures/instance trees/exception classes, each also through ServerProxy",
-    "text": "Generated-input search over malformed texts, structurally invalid objects, method names against function tables and generated instance trees, generated signatures vs argument lists, 30 exception classes with generated messages and translator-rejected payloads; expected code, message content and an empty invocation log are computed independently (strict parser, inspect.signature, tree walk). One known finding is excluded by signature.",
+    "text": "Generated-input search over malformed texts, structurally invalid objects, method names against function tables and generated instance trees, generated signatures vs argument lists, 32 exception classes with generated messages and translator-rejected payloads; expected code, message content and an empty invocation log are computed independently (strict parser, inspect.signature, tree walk). One known finding is excluded by signature.",
     "note": "Trusts Python's json strict mode, inspect.signature binding and the statement-derived model. Random search.",
     "design_ref": "DESIGN.md section 4, C05",
 }
